@@ -7,7 +7,7 @@ PID = "C04"
 RULE = ("ops: 'dec' = primitives of the decimal model (add/sub/mul/div/round) on random operands with 1..30 digit coefficients, "
         "exponents -20..20, zeros, both signs (validates Model/Dec.lean against the decimal module incl. inexact cases); "
         "'scale' = (integer signal width 1..64 signed/unsigned, non-zero factor and offset with 1..12 significant digits, exponents "
-        "-10..6, both signs, optional value table; raw value: every raw for widths <= 12 in thorough / <= 6 in quick, boundaries "
+        "-10..6 (one in ten: -40..-11 or 7..20), both signs, optional value table; raw value: every raw for widths <= 12 in thorough / <= 6 in quick, boundaries "
         "and random interior otherwise) observing raw2phys, phys2raw(raw2phys), named_value, default min/max, raw range; "
         "'label' = value-table label to raw key. Non-trivial = distinct case with a non-integer factor or non-zero offset.")
 EXHAUSTIVE = {"quick": False, "thorough": False}
@@ -45,6 +45,9 @@ def rand_factor(rng):
             t = [rng.random() < 0.15, rng.choice(["1", "2", "5", "25", "125", "1", "10"]), rng.randint(-6, 2)]
         elif c < 0.4:
             t = [rng.random() < 0.15, rng.choice(["3", "7", "12345", "999999999999", "390625", "6103515625"]), rng.randint(-10, 3)]
+        elif c < 0.5:
+            # very small and very large magnitudes (a factor is any non-zero decimal number, not "about one")
+            t = [rng.random() < 0.2, rng.choice(["1", "25", "3", rand_coeff(rng, 6)]), rng.choice([rng.randint(-40, -11), rng.randint(-18, -14), rng.randint(7, 20)])]
         else:
             t = [rng.random() < 0.2, rand_coeff(rng, 12), rng.randint(-10, 6)]
         if t[1] != "0":
@@ -178,6 +181,8 @@ def features(case, impl):
         yield "signed" if sd["signed"] else "unsigned"
         yield "factor-exp=%s" % ("neg" if sd["factor"][2] < 0 else "nonneg")
         yield "negative-factor" if sd["factor"][0] else "positive-factor"
+        if sd["factor"][2] < -10 or sd["factor"][2] > 6:
+            yield "factor-magnitude=extreme"
         yield "named=label" if isinstance(impl["named"], str) else "named=number"
         if len(impl["phys"][1]) >= 28:
             yield "28-digit-result"
